@@ -679,3 +679,13 @@ package main
 //@   atcall (*RuntimeState).setNewAuthCookie requires (s2 *RuntimeState, w2 http.ResponseWriter, username2 string, authlevel2 int) :: authlevel2 == AuthTypeFederated   #C05.federated-identity-from-configured-provider @C05,C06
 //@ func (*RuntimeState).loginHandler
 //@   atcall (*RuntimeState).setNewAuthCookie requires (s2 *RuntimeState, w2 http.ResponseWriter, username2 string, authlevel2 int) :: authlevel2 == AuthTypePassword   #C05.login-mints-password-level @C05,C06
+
+// ---- C16: a hardware-token challenge presented twice at the same moment is honoured at most once ------------------
+// The request that presents an answer takes the stored challenge out of the shared map in the critical section in
+// which it reads it; by the time the answer is verified the challenge is gone (and, the mutex not having been taken
+// again, known to be gone), so a second presentation - however it is interleaved - finds none.
+//@ func (*RuntimeState).u2fSignResponse
+//@   atcall u2f.Registration).Authenticate requires (reg *u2f.Registration, resp u2f.SignResponse, c u2f.Challenge, counter uint32) :: !hasKey(state.localAuthData, ghostAuthUser)   #C16.u2f-challenge-taken-before-verification @C16,C05
+//@ func (*RuntimeState).webauthnAuthFinish
+//@   atcall webauthn.WebAuthn).ValidateLogin requires (wa *webauthn.WebAuthn, user webauthn.User, session webauthn.SessionData, parsed *protocol.ParsedCredentialAssertionData) :: !hasKey(state.localAuthData, ghostAuthUser)   #C16.webauthn-challenge-taken-before-verification @C16,C05
+//@   atcall protocol.ParsedCredentialAssertionData).Verify requires (parsed *protocol.ParsedCredentialAssertionData, storedChallenge string, rpID string, rpOrigin string, appID string, verifyUser bool, credentialBytes []byte) :: !hasKey(state.localAuthData, ghostAuthUser)   #C16.webauthn-challenge-taken-before-local-verification @C16,C05
